@@ -660,6 +660,9 @@ class FnSpec:
         return bool(v)
 
     def binop(self, eng, op, a, b, node):
+        h = self.binop_other(eng, op, a, b, node)
+        if h is not NotImplemented:
+            return h
         if not _symbolic(a) and not _symbolic(b):
             import operator
 
